@@ -39,6 +39,12 @@ def centres(npatch):
     return [(30.0 + 40.0 * k, -20.0 + 25.0 * (k % 3)) for k in range(npatch)]
 
 
+def no_redshifts(name):
+    """dataset names with the suffix 'w' ("Aw") are the same points WITHOUT the redshift column: the catalog stores
+    24-byte records (ra, dec, weights), which no power-of-two buffer block holds a whole number of"""
+    return name.endswith("w")
+
+
 def dataset(name, scale):
     """Deterministic clustered points.  Returns dict(ra, dec [deg], w, z, patch (row -> patch id)).
     Points come in pairs placed symmetrically about the patch centre with equal weights (so the
@@ -47,6 +53,8 @@ def dataset(name, scale):
     Optional scale keys (large scales): "n_fixed" = size of the catalogs no workload touches (U, UR, R0; default n),
     "wB_odd" = dataset B draws its weights from odd multiples of 1/8 (A: multiples of 1/4), so that no record of B
     has the bit pattern of a record of A however many there are."""
+    if no_redshifts(name):
+        name = name[:-1]
     npatch = int(scale["npatch"])
     base = int(scale.get("n_fixed", scale["n"])) if name in ("U", "UR", "R0") else int(scale["n"])
     n = base + (6 if name == "B" else 0) + (3 * base if name == "UR" else 0)
@@ -90,9 +98,10 @@ def dataset(name, scale):
 
 def stored_records(name, scale):
     """The 32-byte records (ra, dec in radian, weights, redshifts as float64) the catalog stores,
-    by input row."""
+    by input row (24 bytes for a dataset without redshifts)."""
     d = dataset(name, scale)
-    arr = np.column_stack([np.deg2rad(d["ra"]), np.deg2rad(d["dec"]), d["w"], d["z"]]).astype("<f8")
+    cols = [np.deg2rad(d["ra"]), np.deg2rad(d["dec"]), d["w"]] + ([] if no_redshifts(name) else [d["z"]])
+    arr = np.column_stack(cols).astype("<f8")
     return [arr[i].tobytes() for i in range(len(arr))], d["patch"].tolist()
 
 
@@ -126,7 +135,10 @@ def make_catalog(path, name, scale, overwrite):
     d = dataset(name, scale)
     df = pd.DataFrame(dict(ra=d["ra"], dec=d["dec"], w=d["w"], z=d["z"]))
     cc = AngularCoordinates(np.deg2rad(np.asarray(centres(scale["npatch"]), dtype="f8")))
-    return yaw.Catalog.from_dataframe(path, df, ra_name="ra", dec_name="dec", weight_name="w", redshift_name="z",
+    if no_redshifts(name):
+        df = df.drop(columns=["z"])
+    return yaw.Catalog.from_dataframe(path, df, ra_name="ra", dec_name="dec", weight_name="w",
+                                      redshift_name=None if no_redshifts(name) else "z",
                                       patch_centers=cc, overwrite=overwrite, max_workers=1,
                                       chunksize=chunksize(name, scale))
 
